@@ -7,7 +7,7 @@ from ..conc import forced, STORE_POINTS
 import os, shutil
 from ..common import RUNDIR
 
-THEOREMS = ['reachable_inv', 'store_read_back', 'read_back_forever', 'by_id_read_back', 'offsets_distinct', 'new_offset_fresh', 'reopen_reads',
+THEOREMS = ['event_map_from_source', 'reachable_inv', 'store_read_back', 'read_back_forever', 'by_id_read_back', 'offsets_distinct', 'new_offset_fresh', 'reopen_reads',
             'delineate_ignores_what_follows', 'delineate_length_any_total', 'map_store', 'map_reopen', 'map_chunks_from_source', 'spec_log_grows', 'spec_store_logged']
 
 
